@@ -126,7 +126,11 @@ def impl_hop(c, clsname):
         # the derivative coupling: the coupling is given an unrelated direction and the moments a length between 1 and 1e-14
         # (first steps of a run, right after a collapse)
         d_mom = d * float(c.get("afssh_scale", 1.0))
-        traj.delP[:, s, s] = d_mom
+        # (both diagonals non-zero, so that the shift of the moments by the new active state's diagonal is visible)
+        traj.delP[:, s, s] = 0.5 * d_mom
+        traj.delP[:, t, t] = -0.5 * d_mom
+        for j_ in range(N):
+            traj.delR[:, j_, j_] = 0.1 * (j_ + 1) * (1.0 + np.arange(n))
         other = np.cos(np.arange(n) + 1.0) * float(np.linalg.norm(d))
         dc[s, t, :] = other
         dc[t, s, :] = -other
@@ -137,7 +141,7 @@ def impl_hop(c, clsname):
         dc[s, pt, :] = pd
         dc[pt, s, :] = -pd
         if clsname == "AugmentedFSSH":
-            traj.delP[:, pt, pt] = d_mom - pd          # direction of rescale = delP[s,s] - delP[pt,pt] = pd
+            traj.delP[:, pt, pt] = 0.5 * d_mom - pd    # direction of rescale = delP[s,s] - delP[pt,pt] = pd
         v_before = np.array(traj.velocity)
         traj.hop_to_it([{"target": pt, "weight": 1.0, "zeta": 0.2, "prob": 0.4}], elec)
         pre_problem = None
@@ -165,9 +169,13 @@ def impl_hop(c, clsname):
     fr = list(tr.events.get("frustrated_hop", []))[npre:]          # (the preparatory frustrated attempt is not the judged one)
     if pre is None:
         pre_problem = None
+    moments = None
+    if clsname == "AugmentedFSSH":
+        moments = dict(delP_target=np.array(subject.delP[:, t, t]), delR_target=np.array(subject.delR[:, t, t]),
+                       delP_source=np.array(subject.delP[:, s, s]), delR_source=np.array(subject.delR[:, s, s]))
     return dict(pre_problem=pre_problem, state=int(subject.state), v=np.array(subject.velocity), hops=hops, frustrated=fr,
                 accepted=int(subject.state == t and len(hops) == 1), parent_ok=parent_ok,
-                time=3.5)
+                time=3.5, moments=moments)
 
 
 def energy_check(c, r):
